@@ -314,9 +314,10 @@ Shapes(c, a)   == IF c.kind = "net" THEN NetShapes(c, a) ELSE EncShapes(c, a, ""
 MinShape(x, y) == [i \in 1..Len(x) |-> Min2(x[i], y[i])]
 RECURSIVE Prod(_)
 Prod(x) == IF Len(x) = 0 THEN 1 ELSE x[1] * Prod(Tail(x))
-Survivors(c, a, b) == DOMAIN Shapes(c, a) \cap DOMAIN Shapes(c, b)
-\* number of cells of tensor n that must carry their old value after a -> b
-CommonCells(c, a, b, n) == Prod(MinShape(Shapes(c, a)[n], Shapes(c, b)[n]))
+\* for two shape tables: number of cells of every surviving tensor that must carry their old value
+CommonOf(S1, S2) == [n \in DOMAIN S1 \cap DOMAIN S2 |-> Prod(MinShape(S1[n], S2[n]))]
+SameRank(S1, S2) == \A n \in DOMAIN S1 \cap DOMAIN S2 : Len(S1[n]) = Len(S2[n])
+Common(c, a, b)  == CommonOf(Shapes(c, a), Shapes(c, b))
 
 (***************************************************************************************************)
 (* The transition system for exhaustive checking (Arch_MC instantiates Cfg and Inits)              *)
@@ -327,7 +328,11 @@ vars == <<arch, act>>
 core == arch
 Init == arch \in Inits /\ act = [m |-> "init", applied |-> "init", args |-> [l |-> 0, k |-> 0, s |-> 0]]
 Call(m) == \E r \in Succ(Cfg, arch, m) : arch' = r.arch /\ act' = [m |-> m, applied |-> r.applied, args |-> r.args]
-Next == \E m \in Methods(Cfg) : Call(m)
+\* three named classes of steps (vacuity guard: each must occur in every instance)
+Direct   == \E m \in Methods(Cfg) : Call(m) /\ act'.applied = m /\ arch' # arch    \* the advertised change
+Fallback == \E m \in Methods(Cfg) : Call(m) /\ act'.applied # m                    \* a bound turns it into another method
+Stopped  == \E m \in Methods(Cfg) : Call(m) /\ act'.applied = m /\ arch' = arch    \* a bound stops it: nothing changes
+Next == Direct \/ Fallback \/ Stopped
 Spec == Init /\ [][Next]_vars
 
 InBounds           == InBoundsOf(Cfg, arch)
@@ -339,9 +344,8 @@ AllMethodsEnabled  == \A m \in Methods(Cfg) : Succ(Cfg, arch, m) # {}
 ShapesTotal == LET S == Shapes(Cfg, arch) IN
                DOMAIN S # {} /\ \A n \in DOMAIN S : Len(S[n]) >= 1 /\ \A i \in 1..Len(S[n]) : S[n][i] >= 1
 \* no surviving tensor changes rank, and the index range the two shapes have in common is not empty
-SurvivorsOverlap == [][ \A n \in Survivors(Cfg, arch, arch') :
-                           /\ Len(Shapes(Cfg, arch)[n]) = Len(Shapes(Cfg, arch')[n])
-                           /\ CommonCells(Cfg, arch, arch', n) >= 1 ]_vars
+SurvOK(S1, S2) == SameRank(S1, S2) /\ \A n \in DOMAIN S1 \cap DOMAIN S2 : CommonOf(S1, S2)[n] >= 1
+SurvivorsOverlap == [][SurvOK(Shapes(Cfg, arch), Shapes(Cfg, arch'))]_vars
 
 (***************************************************************************************************)
 (* Advertised: the property's reading of each method, stated on the size measures, independently   *)
